@@ -24,6 +24,7 @@ THEOREMS = [
     "SynKit.Store.removeSpecies_lookup",
     "SynKit.Store.incidence_spec",
     "SynKit.Store.mkId_injective",
+    "SynKit.Store.merge_edges",
 ]
 
 
